@@ -1,0 +1,25 @@
+//go:build verif
+
+package encoding
+
+import (
+	"github.com/b2broker/simplefix-go/fix"
+	"github.com/b2broker/simplefix-go/session/messages"
+)
+
+// Verification hooks: compiled only with the "verif" build tag.
+
+// VerifValidateRaw exposes validateRaw.
+func VerifValidateRaw(msg messages.Builder, d []byte, strict bool) error {
+	return validateRaw(msg, d, strict)
+}
+
+// VerifSplitGroup exposes splitGroup.
+func VerifSplitGroup(line []byte, firstTag []byte) [][]byte {
+	return splitGroup(line, firstTag)
+}
+
+// VerifUnmarshalItems exposes unmarshalItems.
+func VerifUnmarshalItems(msg fix.Items, data []byte, strict bool) error {
+	return unmarshalItems(msg, data, strict)
+}
